@@ -141,6 +141,13 @@ Section Step.
                    end)) p
     ++ map (fun x => (qk x, 1, req_status status)) (filter has_cb q).
 
+  (* a pump turn that ends in a close: the reaper has run first, so the pending requests whose
+     deadline had passed read BadTimeout and the others the status of the close; then the request
+     just taken from the queue and the queued ones.  (Listed in the order of the labels.) *)
+  Definition pump_close_events (status nw : Z) (p newl : list (Z * entry)) (q : list (Z * Z * Z)) : list event :=
+    map (fun x => (e_k (snd x), 1, if expired nw x then 2 else req_status status)) p
+    ++ close_events status None newl q.
+
   Definition set_closed (s : st) (lr : Z) (id : Z) (evs : list event) : st :=
     {| queue := []; pending := []; last_id := id; last_recv := lr; now := now s; next_k := next_k s;
        closed := true; submitted := submitted s; done := done s ++ evs |}.
@@ -181,10 +188,11 @@ Section Step.
           | [] => (with_pending s p1 (last_recv s) tev, -1, tev)
           | (k, t, kind) :: q' =>
               let id := last_id s + 1 in
-              let p2 := if kind =? 1 then p1 else p1 ++ [(id, mk_entry k (now s + Z.max 0 t) [])] in
+              let newl := if kind =? 1 then [] else [(id, mk_entry k (now s + Z.max 0 t) [])] in
+              let p2 := p1 ++ newl in
               if kind =? 2 then
                 (* SendBuffer::write fails with BadRequestTooLarge: poll closes the transport *)
-                let evs := tev ++ close_events 11 None p2 q' in
+                let evs := pump_close_events 11 (now s) (pending s) newl q' in
                 (set_closed s (last_recv s) id evs, id, evs)
               else
                 ({| queue := q'; pending := p2; last_id := id; last_recv := last_recv s; now := now s;
@@ -338,12 +346,13 @@ Fixpoint ev_eqb (a b : list event) : bool :=
 (* at a close every open request completes, in this operation, with an error status: the common
    one, or BadConnectionClosed (its callback was dropped) for the request [drop] whose response was
    being processed.  [st]: the status if the specification knows it, else any one bad status. *)
-Fixpoint close_ok (open : list (Z * bool)) (evs : list event) (st : option Z) (common : option Z) : bool :=
+Fixpoint close_ok (open : list (Z * Z)) (evs : list event) (st : option Z) (common : option Z) : bool :=
   match open, evs with
   | [], [] => true
-  | (k, dropped) :: open', (k', t, v) :: evs' =>
+  | (k, mode) :: open', (k', t, v) :: evs' =>
       (k =? k') && (t =? 1) && negb (v =? 0) &&
-      (if dropped then (v =? 1) && close_ok open' evs' st common
+      (if mode =? 1 then (v =? 1) && close_ok open' evs' st common            (* its callback was dropped *)
+       else if mode =? 2 then (v =? 2) && close_ok open' evs' st common       (* its deadline had passed *)
        else match st with
             | Some s => (v =? s) && close_ok open' evs' st common
             | None => match common with
@@ -354,9 +363,11 @@ Fixpoint close_ok (open : list (Z * bool)) (evs : list event) (st : option Z) (c
   | _, _ => false
   end.
 
-Definition open_of (g : led) (drop : option Z) : list (Z * bool) :=
-  map (fun x => (gk x, match drop with Some r => fst x =? r | None => false end)) (g_in g)
-  ++ map (fun q => (qk q, false)) (filter has_cb (g_q g)).
+Definition open_q (q : list (Z * Z * Z)) : list (Z * Z) := map (fun q => (qk q, 0)) (filter has_cb q).
+
+Definition open_of (g : led) (drop : option Z) : list (Z * Z) :=
+  map (fun x => (gk x, match drop with Some r => if fst x =? r then 1 else 0 | None => 0 end)) (g_in g)
+  ++ open_q (g_q g).
 
 Definition closed_led (g : led) (id : Z) : led :=
   {| g_q := []; g_in := []; g_closed := true; g_now := g_now g; g_k := g_k g; g_maxid := id |}.
@@ -393,9 +404,12 @@ Definition check1 (g : led) (o : op) (b : ob) : option led :=
                let in2 := if kind =? 1 then in1 else in1 ++ [(o_id b, (k, g_now g + Z.max 0 t, []))] in
                let g2 := {| g_q := q'; g_in := in2; g_closed := false; g_now := g_now g; g_k := g_k g; g_maxid := o_id b |} in
                if o_closed b
-               then ok ((g_maxid g <? o_id b)
-                        && ev_eqb (firstn (length tev) (o_evs b)) tev
-                        && close_ok (open_of g2 None) (skipn (length tev) (o_evs b)) None None)
+               then (* the write failed: BadTimeout for those whose deadline had passed, one common
+                       bad status for every other open request, the one just taken included *)
+                    ok ((g_maxid g <? o_id b)
+                        && close_ok (map (fun x => (gk x, if gexpired (g_now g) x then 2 else 0)) (g_in g)
+                                     ++ (if kind =? 1 then [] else [(k, 0)]) ++ open_q q')
+                                    (o_evs b) None None)
                        (closed_led g (o_id b))
                else ok ((g_maxid g <? o_id b) && ev_eqb (o_evs b) tev) g2
            end
